@@ -34,7 +34,6 @@ QUICK_FLOORS = {
     "sweep:utf32_be:code-point": 0x110000, "sweep:utf32_le:code-point": 0x110000,
     "sweep:utf16:all-2-byte": 65536, "sweep:utf16:boundary-pairs": 30000, "sweep:utf32:boundary+random-values": 100000,
     "sweep:truncated-units-rejected-or-reported": 100000,
-    "abnf:LWSP:*": 19531,
 }
 THOROUGH_FLOORS = {
     "sweep:utf8:all-4-byte-lead>=C0": 64 << 24, "sweep:utf16:all-pairs": 1 << 32, "sweep:utf32:all-units": 1 << 32,
@@ -48,7 +47,6 @@ QUICK_PARTS = [
     "UTF-8: the overlong 2-, 3- and 4-byte forms of every code point below 0x10000",
     "UTF-16 BE+LE: all 2^16 single units on exact 2-byte blocks, and followed by one more byte (4 values)",
     "uint16 BE+LE: all 2^16 values for every rule (13 masks)",
-    "abnf::LWSP: all strings up to length 6 over SP HTAB CR LF x",
 ]
 THOROUGH_PARTS = [
     "UTF-8: all 2^30 four-byte inputs with a lead byte >= 0xC0 (core rules any / not_range / ranges)",
@@ -79,7 +77,7 @@ SPEC = {
             "oracles: cpp/oracles/utf_codec.hpp (Unicode Table 3-7), unit_sets.hpp (positional arithmetic for byte order, span sets), ascii_classes.hpp (member lists from doc/Rule-Reference.md, RFC 5234 B.1); none includes PEGTL",
             "top-level rewind_mode::required, so that a failing rule must leave the cursor where it was (parse<> defaults to optional in this tree, where a failing seq<> may stop anywhere); success and its length do not depend on the mode",
             "template arguments of ascii::range/not_range/ranges never straddle 0x7f/0x80: the documented closed range is then the same set for signed and unsigned char",
-            "abnf::HEXDIG accepts a-f as well (RFC 5234 2.3: literal strings are case-insensitive); abnf::LWSP is judged against RFC 5234 B.1 *(WSP / CRLF WSP) read as a greedy repetition",
+            "abnf::HEXDIG accepts a-f as well (RFC 5234 2.3: literal strings are case-insensitive)",
             "the 64-bit binary rules and the 32-bit ones are sampled (boundary-structured + seeded random values), not enumerated",
         ],
     },
